@@ -154,6 +154,23 @@ def cases(tier, seed, args):
             if sc.get('wca_type') is None or kind in ml.INTEGRATION:
                 pass
             out.append(dict(t='model', **sc))
+        for i in range(4 if q else 16):
+            kind = ['cbmm', 'cacgmm'][i % 2]
+            sc = scenario(rng, kind, tier)
+            sc.update(regime='separable', init='soft', dtype='float64', K=3, D=3, N=24 + i, L=[[], [2]][(i // 2) % 2], iterations=2 + (i // 2) % 2,
+                      sam=False, aligner=False, saliency=False)
+            sc['opts'] = dict(sc['opts'], affiliation_eps=[1e-2, 1e-3][(i // 2) % 2])
+            sc.pop('wca_pos', None)
+            sc['wca'], sc['wca_type'] = (-1,), 'tuple'
+            out.append(dict(t='model', **sc))
+        # more than 2^14 observations in one call (posterior columns are recorded at block boundaries and at the tail)
+        for i in range(2 if q else 6):
+            sc = scenario(rng, ['gmm', 'vmfmm', 'cacgmm'][i % 3], tier)
+            sc.update(regime='regular', init='soft', dtype='float64', K=2, D=2 + i % 2, N=[16384 + 37, 20000, 33000][i % 3], L=[], iterations=1,
+                      sam=False, aligner=False, saliency=False, cols=True)
+            sc.pop('wca_pos', None)
+            sc['wca'], sc['wca_type'] = (-1,), 'tuple'
+            out.append(dict(t='model', **sc))
     if prop == 'inlinepa':
         for (K, T) in ([(2, 1), (2, 2), (3, 1)] if q else [(2, 1), (2, 2), (3, 1), (3, 2)]):
             n = 0
@@ -333,6 +350,16 @@ def wca_arg(case):
     return [pos(a) for a in wca] if t == 'list' else tuple(pos(a) for a in wca)
 
 
+def _cols(case, N):
+    """observation indices that are recorded for very long inputs: head, power-of-two block boundaries, tail"""
+    if not case.get('cols'):
+        return None
+    idx = set(range(4)) | set(range(N - 6, N)) | {N // 2}
+    for b in (1024, 4096, 8192, 16384, 32768):
+        idx |= {b - 1, b, b + 1}
+    return sorted(i for i in idx if 0 <= i < N)
+
+
 def model_case(case, want=('predict', 'fit_predict', 'estep')):
     """Fit one scenario; returns (records, context).  context has model, data, init, opts for other drivers."""
     rng = np.random.default_rng(case['seed'])
@@ -403,16 +430,16 @@ def model_case(case, want=('predict', 'fit_predict', 'estep')):
             aff, e = call(ml.predict, kind, model, data_p, **kw)
         recs.append(ml.posterior_record(kind, model, data_p, aff, wca=wrec, sam=sam, eps=0.0, exc=e, explicit=e in EXPLICIT,
                                         fp=fp + f';call=predict;heldout={bool(case.get("heldout"))};qf={bool(case.get("with_qf"))}',
-                                        key=key + ':p', full=[*L, K, N]))
+                                        key=key + ':p', full=[*L, K, N], cols=_cols(case, N)))
     if 'fit_predict' in want:
         aff, e = call(ml.fit, kind, data, init, case['iterations'], opts, predict=True,
                       trainer=ml.trainer_for(kind, **case.get('trainer_kw', {})))
         recs.append(ml.posterior_record(kind, model, data, aff, wca=wrec, sam=sam, eps=0.0, exc=e, explicit=e in EXPLICIT,
-                                        fp=fp + ';call=fit_predict', key=key + ':fp', full=[*L, K, N]))
+                                        fp=fp + ';call=fit_predict', key=key + ':fp', full=[*L, K, N], cols=_cols(case, N)))
     if 'estep' in want and not opts.get('inline_permutation_alignment'):
         for j, (m, a) in enumerate(events[:2]):
             recs.append(ml.posterior_record(kind, m, data, a, wca=wrec, sam=sam, eps=eps_fit, exc='',
-                                            fp=fp + ';call=estep', key=key + f':e{j}', full=[*L, K, N]))
+                                            fp=fp + ';call=estep', key=key + f':e{j}', full=[*L, K, N], cols=_cols(case, N)))
     return recs, ctx
 
 
